@@ -11,9 +11,11 @@ import (
 	"go/types"
 	"math/rand/v2"
 	"os"
+	"os/exec"
 	"path/filepath"
 	"sort"
 	"strings"
+	"sync"
 	"testing"
 
 	"github.com/prometheus/common/model"
@@ -101,6 +103,20 @@ func (w *world) exec(line string) string {
 		}
 		sort.Strings(orc)
 		return hx.Join(ids, ",") + " " + hx.Join(verdicts, ",") + " " + hx.Join(orc, ",")
+	case "amtool":
+		// the real `amtool config routes test` binary (built from the tree under check) on the configuration of this case
+		if w.tree == nil && w.err == nil {
+			w.build()
+		}
+		if w.err != nil {
+			return "error " + hx.Hex(w.err.Error())
+		}
+		ls := rtx.ParseLabelSet(t[1])
+		var want []string
+		for _, r := range w.tree.Root.Match(ls) {
+			want = append(want, r.RouteOpts.Receiver)
+		}
+		return amtoolRoutes(rtx.Config(rtx.Assemble(w.nodes)), ls) + " " + hx.Join(want, ",")
 	case "fact":
 		return facts(t[1])
 	case "begin": // no-op first line of a case (keeps the minimiser's last candidate a failing one)
@@ -193,6 +209,61 @@ func exhaustive(tr *hx.Trace) {
 			}
 		}
 	}
+}
+
+// ---- amtool: the real binary ----
+
+var (
+	amtoolOnce sync.Once
+	amtoolBin  string
+	amtoolErr  string
+)
+
+func amtoolRoutes(cfgYAML string, ls model.LabelSet) string {
+	amtoolOnce.Do(func() {
+		dir, err := os.MkdirTemp("", "verif-amtool-")
+		if err != nil {
+			amtoolErr = "tmp"
+			return
+		}
+		gobin := os.Getenv("VERIF_GO")
+		if gobin == "" {
+			gobin = "go"
+		}
+		bin := filepath.Join(dir, "amtool")
+		cmd := exec.Command(gobin, "build", "-o", bin, "./cmd/amtool")
+		cmd.Dir = repoDir()
+		cmd.Env = append(os.Environ(), "GOFLAGS=-mod=mod", "GOPROXY=off")
+		if out, err := cmd.CombinedOutput(); err != nil {
+			amtoolErr = "build:" + hx.Hex(string(out))
+			return
+		}
+		amtoolBin = bin
+	})
+	if amtoolBin == "" {
+		return "E" + amtoolErr
+	}
+	f, err := os.CreateTemp("", "verif-amtool-cfg-*.yml")
+	if err != nil {
+		return "Etmp"
+	}
+	defer os.Remove(f.Name())
+	f.WriteString(cfgYAML)
+	f.Close()
+	args := []string{"config", "routes", "test", "--config.file=" + f.Name()}
+	var names []string
+	for n := range ls {
+		names = append(names, string(n))
+	}
+	sort.Strings(names)
+	for _, n := range names {
+		args = append(args, fmt.Sprintf("%s=%q", n, string(ls[model.LabelName(n)])))
+	}
+	out, err := exec.Command(amtoolBin, args...).Output()
+	if err != nil {
+		return "Erun"
+	}
+	return hx.Join(strings.Split(strings.TrimSpace(string(out)), ","), ",")
 }
 
 // ---- three consumers: the call sites that make API, amtool and dispatcher agree ----
@@ -325,7 +396,11 @@ func TestEngine(t *testing.T) {
 		for i := range lsets {
 			lsets[i] = rtx.GenLabelSet(r, rtx.LabelNames)
 		}
-		runScript(tr, caseLines(fmt.Sprint(id), root, lsets))
+		lines := caseLines(fmt.Sprint(id), root, lsets)
+		if id%40 == 0 {
+			lines = append(lines, "amtool "+rtx.LabelSetTok(lsets[0]))
+		}
+		runScript(tr, lines)
 	}
 	if hx.Thorough() && os.Getenv("VERIF_CASES") == "" {
 		exhaustive(tr)
